@@ -28,6 +28,8 @@ def _size(plan):
 def shrink(prop, plan: dict, oracle: str, max_exec: int = 600):
     """Returns (minimised plan, result of its execution, executions used)."""
     used = 0
+    if (plan.get("cfg") or {}).get("large"):
+        max_exec = min(max_exec, 25)       # each execution of a large-world plan takes seconds
 
     def fails(p) -> Optional[object]:
         nonlocal used
